@@ -1217,7 +1217,7 @@ class Compiler:
         for name in self._slots:
             body += template(
                 "try: NAME = econtext[KEY].pop()\n"
-                "except: NAME = None",
+                "except LookupError: NAME = None",
                 KEY=ast.Constant(name), NAME=store(name))
 
         # Wrap visited nodes in try-except error handler.
